@@ -48,6 +48,11 @@ def enumerate_faults(src, tree=None, lite=False):
             if typ == 'stmt' and bc in ('x = 1', '', 'é é'):
                 continue
             yield {'op': 'replace', 'path': p, 'code': [bc, None, 'src'], 'opts': {}}
+        if typ in ('stmt', 'excepthandler', 'match_case'):  # valid code, but not exactly ONE element (one=True is the default)
+            many = {'stmt': ['x = 1\ny = 2', '', '# only a comment'], 'excepthandler': ['except A: pass\nexcept B: pass'],
+                    'match_case': ['case 1: pass\ncase 2: pass']}[typ]
+            for bc in many[:1] if lite else many:
+                yield {'op': 'replace', 'path': p, 'code': [bc, None, 'src'], 'opts': {}}
         wrong = {'expr': 'x = 1', 'stmt': 'except: pass', 'pattern': 'a + b', 'arg': 'a.b', 'keyword': 'x', 'alias': '1',
                  'withitem': 'pass', 'excepthandler': 'x', 'match_case': 'x', 'comprehension': 'x', 'type_param': '1',
                  'arguments': 'pass'}[typ]
@@ -98,6 +103,10 @@ def enumerate_faults(src, tree=None, lite=False):
                 for a, b in ((2, 1), (n + 1, n), ('end', 0)) if n else ((1, 0),):
                     yield {'op': 'fault', 'fault': 'reversed', 'path': p, 'field': field, 'start': a, 'stop': b, 'typ': typ}
                 yield {'op': 'fault', 'fault': 'slice-bad-code', 'path': p, 'field': field, 'n': n}
+                if typ in ('stmt', 'excepthandler', 'match_case'):
+                    two = {'stmt': 'x = 1\ny = 2', 'excepthandler': 'except A: pass\nexcept B: pass', 'match_case': 'case 1: pass\ncase 2: pass'}[typ]
+                    for i in sorted({0, n}):
+                        yield {'op': 'insert', 'path': p, 'field': field, 'idx': i, 'code': [two, None, 'src'], 'opts': {}}
                 if typ in ('stmt', 'excepthandler', 'match_case') or not lite:
                     code = E.K_ONE[typ][1 if len(E.K_ONE[typ]) > 1 else 0]
                     for bo in (({'pep8space': 2}, {'trivia': (1, 2, 3)}) if lite else
